@@ -571,6 +571,7 @@ def run(ctx):
     # ---- nothing is read as a borrowed string -----------------------------------------------------------------------------------------------
     no_borrowed_str_rule(ctx, w, "C18.no-borrowed-str")
     defaults_rule(ctx, w, "C18.defaults", req)
+    map_drained_rule(ctx, w, "C18.map-drained")
     # ---- serde visitors accept transient strings -----------------------------------------------------------------------------------
     ctx.rule("C18.visitors", "every serde Visitor of the workspace that accepts a string (or bytes) in a specialised form (visit_borrowed_str, "
                              "visit_string / visit_borrowed_bytes, visit_byte_buf) also implements the general visit_str / visit_bytes: serde_json hands "
@@ -754,3 +755,102 @@ def defaults_rule(ctx, w, rule, req, floor=20, only=None):
                       bad_msg=f"{ty}: Serialize may omit {dict(skipv[ty])} (value -> number of fields) but a missing field is read as {dict(defv.get(ty, {}))}: "
                               f"{ {c: n_ for c, n_ in short.items()} } field(s) come back with a different value (e.g. a level of 50 omitted and read back as 0)")
     ctx.floor(f"types examined for skip/default agreement ({rule})", n_types, floor)
+
+
+def predicate_coverage_rule(ctx, w, rule, floor=1, only=None):
+    """A struct-valued field with `skip_serializing_if = "T::is_empty"` (a method written by hand on a workspace struct) is omitted when the method says so
+    and read back as T::default(). The method therefore has to look at EVERY field of T: a field it forgets (sync v3 `Rooms::is_empty` and `knock`) is
+    dropped from the wire whenever the fields it does look at are empty. Decided on the MIR of the predicate: the set of fields of `self` it projects
+    (or `self` handed whole to another function, e.g. `self == &Self::default()`) against the field list of the ADT."""
+    ctx.rule(rule, "hand-written one-argument predicates on workspace structs used in `skip_serializing_if` (T::is_empty, T::is_default ..): the predicate reads every "
+                   "field of T (or hands `self` whole to another function); a forgotten field is lost on the wire when the others are empty")
+    import json as _json
+    preds = {}
+    for fn in w.all_fns():
+        if "body" not in fn or (only is not None and not only(fn["path"])):
+            continue
+        if not re.search(r"<impl serde_core::ser::Serialize for (.*)>::serialize$", fn["path"]):
+            continue
+        body = fn["body"]
+        if not any(M.callee_name(c).endswith("::skip_field") for _, c in M.calls(body)):
+            continue
+        cfg = M.Cfg(body)
+        dfs = PC.roots(body)
+        for bi, c in M.calls(body):
+            if M.callee_name(c).endswith("::skip_field"):
+                for g, truth in PC.dominating_guards(cfg, body, dfs, bi):
+                    if g[0] == "call" and truth:
+                        preds.setdefault(g[1], fn)
+    n = 0
+    for name, user in sorted(preds.items()):
+        f = w.lookup(name)
+        if f is None or "body" not in f or f["body"].get("argc") != 1:
+            continue
+        ty = str(f["body"]["locals"][1]).lstrip("&").strip()
+        adt = w.adts.get(ty)
+        if adt is None or adt["kind"] != "Struct" or not name.startswith(ty + "::"):
+            continue
+        fields = [fl["name"] for v in adt["variants"] for fl in v["fields"]]
+        if len(fields) < 2 or all(x.isdigit() for x in fields):
+            continue
+        n += 1
+        read, whole = set(), False
+        for body in M.all_bodies(f):
+            # locals that are plain copies / reborrows of self
+            selfs = {1}
+            for b in body["blocks"]:
+                for st in b["s"]:
+                    if st[0] == "=" and isinstance(st[2], list) and st[2][0] in ("use", "ref", "copy", "move"):
+                        src = st[2][-1] if st[2][0] != "ref" else st[2][2]
+                        pl = src.get("pl") if isinstance(src, dict) and "pl" in src else src
+                        if isinstance(pl, int) and pl in selfs:
+                            selfs.add(st[1])
+                        elif isinstance(pl, dict) and pl.get("l") in selfs and all(x == "*" for x in pl.get("p", [])):
+                            selfs.add(st[1])
+            txt = _json.dumps(body["blocks"])
+            for m in re.finditer(r'\{"l": (\d+), "p": \[(?:"\*", )*\["f", \d+, "(\w+)"\]', txt):
+                if int(m.group(1)) in selfs:
+                    read.add(m.group(2))
+            for _, c in M.calls(body):
+                for a in c["args"]:
+                    pl = a.get("pl")
+                    if (isinstance(pl, int) and pl in selfs) or (isinstance(pl, dict) and pl.get("l") in selfs and all(x == "*" for x in pl.get("p", []))):
+                        whole = True
+        missing = [x for x in fields if x not in read]
+        key = f"{rule}:{name}"
+        if missing and not whole:
+            ctx.violation(rule, key, w.where(f),
+                          f"{name} is the `skip_serializing_if` predicate of a field of type {ty} (in {user['path'].split(' for ', 1)[-1][:80]}) but does not look at "
+                          f"{missing}: a value whose other fields are empty is omitted although {missing[0]} carries data, and is read back as the default")
+        else:
+            ctx.ok(rule, key, w.where(f), f"reads {sorted(read)}" + (" / passes self on" if whole else ""))
+    ctx.floor(f"hand-written struct predicates used to skip a field ({rule})", n, floor)
+
+
+def map_drained_rule(ctx, w, rule, floor=20):
+    """serde_json checks, after visit_map returns Ok, that the map has been read to its end (`trailing characters` / `invalid length` otherwise). A
+    hand-written visit_map therefore has to pull entries until the map says None - inside a loop -, also when it is not interested in them: reading a
+    fixed number of entries makes every object with more (unknown) fields fail."""
+    ctx.rule(rule, "every hand-written Visitor::visit_map of the workspace (not serde-derive's __Visitor) pulls keys / entries from the MapAccess inside a loop: "
+                   "a map is read to its end whatever the number of (unknown) fields")
+    n = 0
+    for g in w.all_fns():
+        if "body" not in g or not g["path"].endswith("::visit_map") or "__Visitor" in g["path"] or "__FieldVisitor" in g["path"]:
+            continue
+        n += 1
+        body = g["body"]
+        cfg = M.Cfg(body)
+        loops = set()
+        for _, bl in cfg.natural_loops().items():
+            loops |= set(bl)
+        pulls = [(bi, c) for bi, c in M.calls(body) if re.search(r"MapAccess.*::next_(key|entry|key_seed|entry_seed)$", M.callee_name(c))]
+        outside = [c for bi, c in pulls if bi not in loops]
+        deleg = any("MapAccessDeserializer" in M.callee_name(c) for _, c in M.calls(body))
+        key = f"{rule}:{PC.key_path(g['path'])[-150:] if hasattr(PC, 'key_path') else g['path'][-150:]}"
+        if pulls and not deleg and (outside or not any(bi in loops for bi, _ in pulls)):
+            ctx.violation(rule, key, w.where(g, (outside or [pulls[0][1]])[0]["line"]),
+                          f"{g['path'][-120:]} pulls an entry from the map outside any loop: an object with more fields than the fixed number of reads is rejected "
+                          f"by the deserializer's end-of-map check (unknown extra fields must never cause failure)")
+        else:
+            ctx.ok(rule, key, w.where(g), f"{len(pulls)} pull site(s), all in a loop" if pulls else "delegates the map / reads nothing")
+    ctx.floor("hand-written visit_map functions", n, floor)
